@@ -368,6 +368,42 @@ def run(chk, repo):
     from rules.shared import readonly_inputs
     chk.clauses.append('C11.p (R-EFFECT) writing an annotation as GTF only reads the models: no feature list of a gene / transcript model is extended, sorted or otherwise changed through an alias (a second write, or sequence extraction after a write, sees the same models)')
     readonly_inputs(chk, repo, 'C11.p', ['gtf.GtfIO:write', 'gtf.GtfIO:to_gtf_record'], 'writing GTF leaves the annotation models unchanged')
+    record_lists_bound_once(chk, repo, 'C11.q')
+
+
+def record_lists_bound_once(chk, repo, rid):
+    """R-EFFECT (who-may-write): the record lists of a transcript model (attributes its constructor initialises as `X or []`: cds,
+    exon, utr, five_utr, three_utr, selenocysteine ...) have more than one producer - add_record files ENSEMBL-style
+    five_prime_utr / three_prime_utr records directly, split_utr derives them from `utr` for GENCODE.  Inside the gtf package no
+    method other than the constructor re-binds such a list (append / extend / sort in place only), so no record that was filed
+    is ever discarded."""
+    chk.rule(rid, 'R-EFFECT: the record lists of a transcript model are bound by the constructor only; everything else appends / sorts in place', 5)
+    chk.clauses.append('C11.q no method of the gtf package re-binds a record list of a transcript model (five_utr / three_utr / utr / cds / exon / selenocysteine): records filed by add_record survive sort_records / split_utr')
+    init = repo.func('gtf.TranscriptAnnotationModel:TranscriptAnnotationModel.__init__')
+    chk.uses(init)
+    lists = [st.targets[0].attr for st in walk_no_nested(init.node) if isinstance(st, ast.Assign) and len(st.targets) == 1 and isinstance(st.targets[0], ast.Attribute)
+             and unparse(st.targets[0].value) == 'self' and isinstance(st.value, ast.BoolOp) and isinstance(st.value.op, ast.Or)
+             and isinstance(st.value.values[-1], ast.List) and not st.value.values[-1].elts]
+    if not lists:
+        chk.undecided(rid, 'record lists', init.where, 'no `self.X = X or []` list found in TranscriptAnnotationModel.__init__', key=init.qual + '::lists', fn=init.qual)
+        return
+    writers = {k: [] for k in lists}
+    for f in repo.funcs_in():
+        if not f.module.modname.startswith('gtf') or f.qual == init.qual:
+            continue
+        for n in ast.walk(f.node):
+            if isinstance(n, ast.Attribute) and isinstance(n.ctx, (ast.Store, ast.Del)) and n.attr in writers and not isinstance(repo.parent(n), ast.AugAssign):
+                # only objects that are transcript models: `self` inside the class, or names / expressions of models elsewhere
+                if f.qual.startswith('gtf.TranscriptAnnotationModel:TranscriptAnnotationModel.') and unparse(n.value) != 'self':
+                    continue
+                if not f.qual.startswith('gtf.TranscriptAnnotationModel:TranscriptAnnotationModel.') and not re.search(r'(tx_model|transcript_model|model)$|transcripts\[', unparse(n.value)):
+                    continue
+                writers[n.attr].append(f"{repo.loc(f, n)} in {f.name}")
+                chk.uses(f)
+    for k in lists:
+        chk.ob(rid, f"`{k}` is bound by the constructor only", init.where, not writers[k],
+               f"the record list `{k}` is re-bound at {writers[k]}: records filed there by add_record (ENSEMBL five_prime_utr / three_prime_utr) are discarded",
+               key=f"gtf.TranscriptAnnotationModel::{k}::bound-once", fn=init.qual)
 
 
 def exon_loop_inverse(chk, repo, rid):
